@@ -189,6 +189,8 @@ def judge(case, impl_res, ans):
     if 'err' in ans:
         return 'MACHINERY: driver error %s' % ans['err']
     m = ans['ok']
+    if m.get('store_refines_heap') is False:
+        return 'MACHINERY: the statement-level store of _append_op does not refine the abstract heap (contradicts appendOp_refines_derive)'
     if 'raised' in impl_res:
         return 'SPEC: real code raised %s (%s) at %s while deriving readers' % (
             impl_res['raised'], impl_res['msg'], impl_res['where'])
